@@ -246,7 +246,12 @@ impl VirtualNode for Peers {
                 if is_status {
                     normal
                 } else {
-                    rc::encode(&RefFrame::Data { da: *sa, sa: *da, dsap: None, ssap: None, fc: 0x03, pdu: vec![] })
+                    // 'service not activated', with the SAPs mirrored or without any, by address
+                    if *da % 2 == 0 {
+                        rc::encode(&RefFrame::Data { da: *sa, sa: *da, dsap: None, ssap: None, fc: 0x03, pdu: vec![] })
+                    } else {
+                        rc::encode(&RefFrame::Data { da: *sa, sa: *da, dsap: *ssap, ssap: *dsap, fc: 0x03, pdu: vec![] })
+                    }
                 }
             }
             PeerKind::DpSlave => {
